@@ -121,7 +121,7 @@ PROFILE = dict(
     fastq=True,
     n_records=(4, 24),
     maxlen=30,
-    in_containers=("", "", ".gz"),
+    in_containers=("", "", "", ".gz", ".gz", ".bz2", ".xz"),
     out_containers=("", "", ".gz"),
     p_adapters=0.8, p_modifiers=0.2, p_filters=0.4, p_redirect=0.5, p_untrimmed_opts=0.3,
     p_demux=0.12, p_info=0.15, p_rename=0.05, p_revcomp=0.05, p_pair_adapters=0.03,
@@ -157,6 +157,7 @@ def record_offsets(case, file_index):
 
 
 RECORD_FAULTS = [
+    ("bad_byte", {"line": 1, "pos": 2}), ("bad_byte", {"line": 3, "pos": 0}),
     ("qual_len", {"delta": -1}), ("qual_len", {"delta": 2}),
     ("drop_line", {"line": 0}), ("drop_line", {"line": 1}), ("drop_line", {"line": 2}), ("drop_line", {"line": 3}),
     ("dup_line", {"line": 0}), ("dup_line", {"line": 2}), ("dup_line", {"line": 3}),
@@ -233,7 +234,7 @@ def _table(seed, tier):
         {"paired": True, "in_containers": (".gz",), "force_layout": "two"},
         {"paired": False, "in_containers": (".gz",), "force_members": 3},
     ]
-    n_bases = 1 if tier == "quick" else len(forces) * 2
+    n_bases = 2 if tier == "quick" else len(forces) * 3
     bases = []
     table = []
     for b in range(n_bases):
@@ -565,7 +566,7 @@ def main(seed, tier, args):
     mod = sys.modules[__name__]
     bases, table = _table(seed, tier)
     n_enum = len(table)
-    extra = 1500 if tier == "quick" else 40000
+    extra = 3500 if tier == "quick" else 60000
     n = args.cases or (n_enum + extra)
     budget = args.budget or (150 if tier == "quick" else 1500)
     ex = {"enumerated_bases": len(bases), "enumerated_single_fault_cases": n_enum,
